@@ -1471,6 +1471,13 @@ def c02_scripts(ctx, E, quick):
                 P[rng.randrange(n)] = rng.choice((0x80, 0xff))
             reqs.append((bytes(P), s))
         per[m] = reqs
+    # bcrypt: the key expansion (BFSetKey) for the sign-extension key family and long keys, all four subtypes
+    for m in ("bcrypt", "bcrypt_a", "bcrypt_x", "bcrypt_y"):
+        if m in E:
+            s0 = gen.PREFIX[m] + "04$" + gen.salt(rng, 22, gen.BF64)
+            fam = gen.bcrypt_sign_family(rng)
+            keys = (fam if not quick else fam[::4] + fam[-7:]) + [gen.rand_phrase(rng, n) for n in (0, 1, 3, 4, 17, 55, 71, 72, 73, 74, 200, 511)]
+            per[m] = [(k, s0) for k in keys]
     # gost-yescrypt relative to yescrypt: each $gy$ request is preceded by the $y$ request with the same parameters and salt
     if "gost_yescrypt" in E and "yescrypt" in E:
         g = []
@@ -1566,7 +1573,8 @@ def c02(ctx):
     attribute(ctx)
     cov = mc_coverage(ctx, 1, 1, [v], ev, {"corpus_fixed": len(fixed), "corpus_seeded": len(seeded), "released_source": src,
                                          "script_calls_evaluated_by_tlc": nscript,
-                                         "scripted_methods": ["descrypt", "bigcrypt", "bsdicrypt", "md5crypt", "sha256crypt", "sha512crypt", "sunmd5", "sha1crypt", "nt"],
+                                         "scripted_methods": ["descrypt", "bigcrypt", "bsdicrypt", "md5crypt", "sha256crypt", "sha512crypt", "sunmd5", "sha1crypt", "nt",
+                                                              "gost_yescrypt (outer layer)", "bcrypt* (key expansion)"],
                                          "predicates": ["Released: byte-identical to the released libcrypt.so.1 4.4.33 on the corpus",
                                                         "Script: equals the published algorithm evaluated by TLC (Scripts.tla)"]})
     cov["states"] = v["tlc"].get("distinct", 1)
